@@ -2,7 +2,7 @@
 
 Real @proc procedures are scheduled with operations that report mod-sets (bind_config,
 write_config, delete_config, call_eqv) and ones that do not (rename, simplify), mixed with
-unsafe_assert_eq, is_eq, signature-changing utilities (partial_eval, add_assertion: new origin) and
+unsafe_assert_eq, is_eq, signature-changing utilities (partial_eval, add_assertion, transpose: new origin) and
 dropping of Procedure objects.  Every call the API makes into exo.core.proc_eqv is observed by
 wrapping the names API.py / LoopIR_scheduling.py imported (no hook in /repo) and written out as a
 job in the language of coq/Eqv/driver.ml, together with the answers the real module gave.
@@ -64,7 +64,14 @@ def foo(n: size, x: f32[n], s: f32, t: f32):
         x[i] = x[i] + t
 
 
-BASE = [("leaf", leaf, "leaf"), ("leaf_other", leaf_other, "leaf"), ("foo", foo, "foo")]
+@proc
+def mat(n: size, A: f32[n, n], s: f32):
+    for i in seq(0, n):
+        A[i, 0] = A[i, 0] * s
+
+
+BASE = [("leaf", leaf, "leaf"), ("leaf_other", leaf_other, "leaf"), ("foo", foo, "foo"), ("mat", mat, "mat")]
+NBASE = len(BASE)
 FIELDS = [(CA, "a"), (CA, "b"), (CB, "c")]
 
 
@@ -171,7 +178,7 @@ def callee_name(p):
 
 def sweep_now(pool):
     """Answers of the real module for all pairs of live procedures x all subsets of the known keys."""
-    procs = [q._loopir_proc for _, q, _ in (pool[:3] + pool[3:][-4:])]
+    procs = [q._loopir_proc for _, q, _ in (pool[:NBASE] + pool[NBASE:][-3:])]
     ids = [REC.p(x) for x in procs]
     inv = {v: k for k, v in REC.kid.items()}
     keys = sorted(inv)
@@ -238,7 +245,7 @@ def script(sid, rng, nactions):
 
     def one_action():
         kind = rng.choice(["bind", "bind", "write", "write", "delete", "rename", "simplify", "assert_eq",
-                           "call_eqv", "call_eqv", "call_eqv", "partial_eval", "add_assertion",
+                           "call_eqv", "call_eqv", "call_eqv", "partial_eval", "add_assertion", "transpose",
                            "is_eq", "drop"])
         n0 = len(REC.items)
         LAST_CFG[0] = None
@@ -291,8 +298,16 @@ def script(sid, rng, nactions):
                 nm[0] += 1
                 pool.append(("%s_aa%d" % (name, nm[0]), r, fam))
                 desc += ["ok"]
+            elif kind == "transpose":
+                name, p, fam = rng.choice([e for e in pool if e[2] == "mat"])
+                desc = [kind, name]
+                r = p.transpose(p.args()[1])
+                expect(kind, n0, [["decl", REC.p(r._loopir_proc)]])
+                nm[0] += 1
+                pool.append(("%s_tr%d" % (name, nm[0]), r, "mat"))
+                desc += ["ok"]
             elif kind == "drop":
-                cand = [i for i, e in enumerate(pool) if i >= 3]
+                cand = [i for i, e in enumerate(pool) if i >= NBASE]
                 if cand:
                     i = rng.choice(cand)
                     desc = [kind, pool[i][0]]
